@@ -12,7 +12,7 @@ def main():
     ap.add_argument("--subs", type=float, default=0.25); ap.add_argument("--enq", type=float, default=0.1)
     ap.add_argument("--drain", type=float, default=0.1); ap.add_argument("--restart", type=float, default=0.05)
     ap.add_argument("--startsubs", type=float, default=0.1); ap.add_argument("--copy", type=float, default=0.0); ap.add_argument("--ninst", type=int, default=1); ap.add_argument("--destroy", type=float, default=0.0); ap.add_argument("--saveload", type=float, default=0.0); ap.add_argument("--fe", default="functor"); ap.add_argument("--moves", type=float, default=0.0)
-    ap.add_argument("--maxcalls", type=int, default=7); ap.add_argument("--show", type=int, default=12)
+    ap.add_argument("--maxcalls", type=int, default=7); ap.add_argument("--show", type=int, default=12); ap.add_argument("--invs", default="")
     a = ap.parse_args()
     d = core.load_def(a.name)
     cfgs = [c for c in gen.CONFIGS if core.supported(d, c)] if a.cfgs == "all" else a.cfgs.split(",")
@@ -31,7 +31,7 @@ def main():
     def work(job):
         c, f, scripts = job
         tp = os.path.join(wd, "t_%s_%d.ndjson" % (c, f))
-        div, st = core.first_divergence(v, d, c, bins[(a.name, c)], scripts, tp, ninst=a.ninst)
+        div, st = core.first_divergence(v, d, c, bins[(a.name, c)], scripts, tp, ninst=a.ninst, invs=[x for x in a.invs.split(",") if x])
         return c, f, div, st
     bad = 0
     with cf.ThreadPoolExecutor(max_workers=core.NPROC) as ex:
@@ -40,7 +40,7 @@ def main():
                 print("%-9s file %d: accepted %d lines, %d states, %.1fs" % (c, f, st["nl"], st.get("generated", 0), st["secs"]))
             else:
                 bad += 1
-                print("%-9s file %d: REJECTED exec %d (repeats=%s) last matched line %d of %d" % (c, f, div["exec_index"], div["repeats"], div["last_matched"], div["nl"]))
+                print("%-9s file %d: REJECTED kind=%s propline=%s exec %d (repeats=%s) last matched line %d of %d" % (c, f, div["kind"], div.get("prop_line"), div["exec_index"], div["repeats"], div["last_matched"], div["nl"]))
                 print("  script:"); [print("    " + s) for s in div["script"]]
                 lm = div["last_matched"]
                 lo = max(0, lm - a.show)
